@@ -81,9 +81,9 @@ PROPS = {
         "families": ["c17"] * 9 + ["c17d"],
         "runs": {"quick": 20000, "thorough": 300000},
         "level": "exploration",
-        "rule": "one evaluation = one simulated run: 2..12 pollable messages with priorities 0..9 loaded from CSV, phases of 150..1650 getNextPoll() calls (bus role) with clock steps, separated by priority changes with front/back re-insertion and by definitions loaded late (main role). Judged per perturbation-free window against stride scheduling bounds (doubled constant 36, one settling window). Non-trivial = more than 50 selections; distinct = distinct trace hashes among those.",
-        "components": {"real": ["src/lib/ebus/message.cpp (MessageMap::getNextPoll/addPollMessage/add, Message::setPollPriority/isLessPollWeight)"],
-                       "stub": ["clock and role threads: /verif/sim/simkernel.cpp", "Resolver: minimal test double"]},
+        "rule": "one evaluation = one simulated run: 2..12 pollable messages with priorities 0..9 loaded from CSV, phases of 150..1650 getNextPoll() calls (bus role) with clock steps, separated by priority changes with front/back re-insertion and by definitions loaded late (main role). Judged per perturbation-free window against stride scheduling bounds (doubled constant 36, one settling window). One run in ten is family c17d: the whole daemon for 72 simulated seconds with one poll per second, 2..4 poll messages of priority 1..3 and clients repeating 'read -p N -m 300' for the priority a message already has; every enrolled message must be polled in [12 s, 40 s] and in [40 s, 68 s]. Non-trivial = more than 50 selections (c17d: at least one message judged); distinct = distinct trace hashes among those.",
+        "components": {"real": ["src/lib/ebus/message.cpp (MessageMap::getNextPoll/addPollMessage/add, Message::setPollPriority/isLessPollWeight)", "family c17d: whole daemon except main()"],
+                       "stub": ["clock and role threads: /verif/sim/simkernel.cpp", "Resolver: minimal test double", "family c17d: as C09"]},
         "assumptions": ASSUME_COMMON + ["fairness bounds: |n_i*p_i - n_j*p_j| <= 36 + 2*max(p) and re-selection within 1 + sum floor(36/p_j) + 2 selections, after one settling window following each perturbation"],
     },
     "C09": {"families": ["c09"] * 5 + ["c12o"] * 2 + ["c09w", "c09s", "c09f", "c09f"], "claims": ["C12:load-order-dependent-result"], "runs": {"quick": 15000, "thorough": 300000}, "level": "exploration", "timeout_ms": 30000,
@@ -97,7 +97,7 @@ PROPS = {
         "components": {"real": ["whole daemon except main()"], "stub": ["as C09"]},
         "assumptions": ASSUME_COMMON + ["history independence is decided for the operations that pass through the daemon; leakage between two fields of one pure call is not covered"]},
     "C16": {"families": ["c16"] * 3 + ["c16v"], "runs": {"quick": 15000, "thorough": 300000}, "level": "exploration", "timeout_ms": 30000,
-        "rule": "one evaluation = one simulated run of the whole daemon with a generated ACL (users, default levels, level names that are prefixes/suffixes/infixes of each other, '*'), levelled messages, and 2..5 interleaved TCP sessions (auth right/wrong/unknown, read/write by name with and without circuit, hex forms, read -p) plus HTTP /data requests with user and secret. Non-trivial = at least one command judged; distinct = distinct trace hashes.",
+        "rule": "one evaluation = one simulated run of the whole daemon with a generated ACL (users, default levels, level names that are prefixes/suffixes/infixes of each other, '*'), levelled messages, and 2..5 interleaved TCP sessions (auth right/wrong/unknown, read/write by name with and without circuit, hex forms, read -p) plus HTTP /data requests with user and secret (wrong secrets incl. look-alikes of the right one; in a third of the plans a second file with a level column and a defaults row that hands its level down). One run in four is family c16v: two conditional variants of one circuit/name, one of them levelled, in both file orders and with either one active; forced and cached reads, find -v -d, HTTP /data and listen mode by clients with the level, with look-alike levels and without authentication. Non-trivial = at least one command judged; distinct = distinct trace hashes.",
         "components": {"real": ["whole daemon except main()"], "stub": ["as C09"]},
         "assumptions": ASSUME_COMMON + ["the hex command (--enablehex) and find -l are outside the statement"]},
     "C18": {"families": ["c18t", "c18h", "c18m"], "runs": {"quick": 24000, "thorough": 400000}, "level": "exploration", "timeout_ms": 30000,
